@@ -511,6 +511,52 @@ def _shared_through_two_permutations(w, E):
     return p_elemwise(w, operator.add, p1, p2)
 
 
+def _with_block_info2(a, b, block_info=None):
+    """two inputs of different rank under drop_axis=0: a arrives with axis 0 concatenated, b is 1-d along a's last axis; every
+    input block must have the extent its own block_info entry reports; the value is a.sum(0) + b plus the reported start of b"""
+    if block_info is None:
+        return a.sum(axis=0) + b
+    E = CUR[0]
+    conds = []
+    for i, blk in ((0, a), (1, b)):
+        loc = block_info[i]["array-location"]
+        conds += [len(loc) == blk.ndim] + [blk.shape[k] == (hi - lo) for k, (lo, hi) in enumerate(loc)][:blk.ndim]
+    out = block_info[None]
+    conds += [(out["array-location"][0][1] - out["array-location"][0][0]) == b.shape[0]]
+    E.ensure("blocks-have-the-extent-block_info-describes", AND(*conds))
+    return a.sum(axis=0) + b + block_info[1]["array-location"][0][0]
+
+
+_with_block_info2.__symx_kernel__ = True
+
+
+def p_map_blocks_drop(w, E, a, b):
+    """map_blocks(f, a2d, b1d, drop_axis=0) with f reading block_info of both inputs"""
+    ca, cb = w.fn(NC, "new_collection")(a.node), w.fn(NC, "new_collection")(b.node)
+    out = w.fn("dask_array._map_blocks", "map_blocks")(_with_block_info2, ca, cb, drop_axis=0, dtype=np.dtype("f8"), meta=np.empty((0,)))
+    cols = tuple(cb.chunks[0])
+    bnd = cumsum0(cols)
+    A, B = a.ref, b.ref
+    col_sum = A.reduce_axis(0, "add")
+
+    def at(idx):
+        term = None
+        for j in range(len(cols) - 1, -1, -1):
+            val = core._z(bnd[j])
+            term = val if term is None else z3.If(idx[0] < core._z(bnd[j + 1]), val, term)
+        return col_sum._at(idx) + B._at(idx) + z3.ToReal(term)
+
+    dsk = dict(a.dsk)
+    dsk.update(b.dsk)
+    return Prog(out.expr, SArr(B.shape, at), dsk)
+
+
+def _two_rank_inputs(w, E):
+    b = source(w, E, "b", (2,))
+    a = source(w, E, "a", (2, 2), chunks=[None, b.node.chunks[0]])
+    return p_map_blocks_drop(w, E, a, b)
+
+
 def p_map_blocks(w, E, p, how="info"):
     """map_blocks(f, x) with f reading block_info (or block_id); the reference is written from the layout advertised *now*"""
     coll = w.fn(NC, "new_collection")(p.node)
@@ -664,6 +710,8 @@ def programs(tier):
     reg("map_blocks(f_info,x3)", lambda w, E: p_map_blocks(w, E, source(w, E, "x", (3,))), 3)
     reg("map_blocks(f_info,x2x2)", lambda w, E: p_map_blocks(w, E, source(w, E, "x", (2, 2))), 3)
     reg("map_blocks(f_id,x2x2)", lambda w, E: p_map_blocks(w, E, source(w, E, "x", (2, 2)), "id"), 3)
+    reg("map_blocks(f_id,x3)[a:b]", lambda w, E: p_slice(w, p_map_blocks(w, E, source(w, E, "x", (3,)), "id"), raw_index(E, (F,))), 5)
+    reg("map_blocks(f_info2,a2x2,b2,drop_axis=0)", lambda w, E: _two_rank_inputs(w, E), 4)
     reg("map_blocks(f_info,x2)[a:b]", lambda w, E: p_slice(w, p_map_blocks(w, E, source(w, E, "x", (2,))), raw_index(E, (F,))), 4)
     reg("map_blocks(f_info,x2x2).T", lambda w, E: p_transpose(w, p_map_blocks(w, E, source(w, E, "x", (2, 2))), (1, 0)), 3)
     reg("map_blocks(f_info,rechunk(x2->3))", lambda w, E: p_map_blocks(w, E, _rechunk_prog(w, E, (2,), (3,))), 4)
@@ -701,6 +749,7 @@ def programs(tier):
     reg("add(x2,y2,where=m3(own chunks),out=o2)", lambda w, E: _add_where_out(w, E, (2,), (3,)), 6)
     reg("add(x2x2+1,y2x2,where=m2(1-d),out=o2x2)", lambda w, E: _add_where_out(w, E, (2, 2), (2,), mask_axes=(1,), pre=True), 6)
     reg("concatenate([rechunk(rechunk(x40)[0:10]),rechunk(rechunk(x40)[20:30])]) (same layout, two regions)", lambda w, E: _two_windows(w, E), 4)
+    reg("add(x2,y2,where=m,out=o)-add(x2,y2,where=m,out=p) (two masked calls, one graph)", lambda w, E: _two_masked_calls(w, E), 5)
     reg("rechunk(x2+y2)", lambda w, E: _rechunk_over(w, E, _add_aligned(w, E, (2,)), (3,)), 4)
     reg("rechunk(concatenate([x2,y2],0))", lambda w, E: _rechunk_over(w, E, p_concat(w, [source(w, E, "x", (2,)), source(w, E, "y", (2,))], 0), (3,)), 6)
     reg("rechunk(concatenate([x2x2,y2x1],1),axis0)", lambda w, E: _rechunk_over(w, E, _concat_axis1(w, E), (1, None)), 5)
@@ -761,6 +810,15 @@ def _add_where_out(w, E, blocks, mask_blocks, mask_axes=None, pre=False):
     if pre:
         x = p_elemwise(w, plus_one_ufunc, x)
     return p_elemwise(w, np.add, x, y, _where=m, _out=o)
+
+
+def _two_masked_calls(w, E):
+    x = source(w, E, "x", (2,))
+    y = source(w, E, "y", (2,), chunks=x.node.chunks)
+    m = source(w, E, "m", (2,), chunks=x.node.chunks, dtype="bool")
+    o = source(w, E, "o", (2,), chunks=x.node.chunks)
+    p = source(w, E, "p", (2,), chunks=x.node.chunks)
+    return p_elemwise(w, operator.sub, p_elemwise(w, np.add, x, y, _where=m, _out=o), p_elemwise(w, np.add, x, y, _where=m, _out=p))
 
 
 def plus_one_ufunc(a):
